@@ -672,6 +672,7 @@ func (c *Client) Do(ctx context.Context, q Query) (err error) {
 			span.End()
 		}()
 	}
+	callCtx := ctx
 	g, ctx := errgroup.WithContext(ctx)
 	done := make(chan struct{})
 	var (
@@ -789,6 +790,11 @@ func (c *Client) Do(ctx context.Context, q Query) (err error) {
 		// exception). Drop everything that was encoded and not flushed, so it
 		// is not sent as a prefix of the next request.
 		c.writer = proto.NewWriter(c.conn, new(proto.Buffer))
+		if ctxErr := callCtx.Err(); ctxErr != nil && !errors.Is(err, ctxErr) {
+			// Canceled by the caller, but another goroutine was first to fail on the
+			// consequences (e.g. the sender finding the client already closed).
+			err = multierr.Append(ctxErr, err)
+		}
 		return err
 	}
 	return nil
